@@ -110,6 +110,57 @@ def strip_both(ctx, rep, clause):
        'subsequence.find_indices(sequence)', f'returns `{norm_stmt(ret[0].value) if ret else "?"}`', f.loc(), clause)
 
 
+def early_rejects(ctx, rep, clause):
+    """an exit of the search that answers "not found" without looking at the candidate stretches may rely on the
+    modification state of the *whole* target only in one case: a modified query in a completely unmodified target.
+    An unmodified query still occurs on the unmodified stretches of a modified target (a digested peptide in its
+    protein), so the exit guards are decided over {query modified?} x {target modified?}"""
+    program = ctx.program
+    n = 0
+    for fq, q, t in ((f'{SF}:find_subsequence_indices', 'subsequence', 'sequence'),
+                     (f'{PP}:ProFormaAnnotation.find_indices', 'self', 'other')):
+        f = program.func(fq)
+        c = Canon(f.node)
+        exits = [x for x in walk_own(f.node) if isinstance(x, ast.Return) and
+                 isinstance(x.value, (ast.List, ast.Tuple)) and not x.value.elts]
+        for ex in exits:
+            tests = list(dominating_tests(f.node, ex)) + [(tt, False) for tt in preceding_exits(f.node.body, ex)]
+            reads_mods = any('has_' in norm_stmt(tt) and 'has_sequence' not in norm_stmt(tt) or '_mods' in norm_stmt(tt)
+                             for tt, _p in tests)
+            n += 1
+            bad = None
+            if reads_mods:
+                for qm in (False, True):
+                    for tm in (False, True):
+                        if (qm, tm) == (True, False):
+                            continue
+                        env = {}
+                        for who, val in ((q, qm), (t, tm)):
+                            for pred in ('has_mods', 'has_internal_mods', 'has_nterm_mods', 'has_cterm_mods',
+                                         'has_intervals', 'has_labile_mods', 'has_static_mods', 'has_isotope_mods',
+                                         'has_unknown_mods'):
+                                env[f'{who}.{pred}()'] = val
+                            env[f'{who}.has_sequence()'] = True
+                            env[f"{who}.sequence == ''"] = False
+                        ge = GuardEval(env, c.aliases())
+                        taken = True
+                        for tt, pol in tests:
+                            v = ge.eval(tt)
+                            if v is UNK or bool(v) != pol:
+                                taken = False
+                        if taken and bad is None:
+                            bad = (qm, tm)
+            ob(rep, 'SIB-strip-both', fq, f'"not found" exit `{"; ".join(norm_stmt(tt)[:50] for tt, _p in tests)[:110]}` does '
+               f'not depend on modifications elsewhere in the target', bad is None,
+               'decided over {query modified?} x {target modified?}',
+               f'the search answers "not found" without looking when the query is '
+               f'{"modified" if bad and bad[0] else "unmodified"} and the target is '
+               f'{"modified" if bad and bad[1] else "unmodified"} somewhere: an occurrence on a stretch whose '
+               f'modifications do equal the query\'s is never reported (a digested peptide is not found in its protein)',
+               f.loc(ex), clause)
+    return n
+
+
 def coverage_ranges(ctx, rep, clause):
     program = ctx.program
 
@@ -179,6 +230,7 @@ def check(ctx, rep):
     n = add_fwd(rep, forwarding(an, program, ['ignore_mods', 'accumulate'], callers=callers), 'C16b')
     rep.floor('FWD', 'ignore_mods forwarding sites', n, 2)
     strip_both(ctx, rep, 'C16b')
+    early_rejects(ctx, rep, 'C16a')
     coverage_ranges(ctx, rep, 'C16c')
     from . import C20
     C20.empty_vs_absent(ctx, rep, 'C16a')
